@@ -1,93 +1,7 @@
-(* C02 (nesting): abstract interpretation of the regenerated table over rule
-   stacks.  `alpha` (one stack of open rules with residual bodies per state) is
-   computed by an unverified explorer; `stack_consistent` checks every
-   transition against it. *)
+(* C02 (nesting): the rule-stack certificate for the regenerated table. *)
 From Coq Require Import List Bool Arith.
 Import ListNotations.
-Require Import Kinds Regex Grammar RefSem Table.
-
-Definition frame_beq (a b : frame) : bool := rule_beq (fst a) (fst b) && re_beq (snd a) (snd b).
-Definition stack_beq := list_beq frame_beq.
-
-Lemma list_beq_eq {A} (eqb : A -> A -> bool) :
-  (forall x y, eqb x y = true -> x = y) -> forall a b, list_beq eqb a b = true -> a = b.
-Proof.
-  intros H. induction a as [|x a IH]; destruct b as [|y b]; simpl; try discriminate; auto.
-  intros E. apply andb_prop in E as [E1 E2]. f_equal; auto.
-Qed.
-Lemma stack_beq_eq a b : stack_beq a b = true -> a = b.
-Proof.
-  apply list_beq_eq. intros [x r] [y r']. unfold frame_beq. simpl. intros E.
-  apply andb_prop in E as [E1 E2]. apply rule_beq_eq in E1. apply re_beq_eq in E2. congruence.
-Qed.
-
-Definition prod_aev (k : kind) (p : prod) : aev :=
-  match p with PS r => AS r | PE r => AE r | PB => AB k end.
-Definition apply_test (stk : list frame) (x : test) : option (list frame) :=
-  apply_aevs stk (map (prod_aev (t_kind x)) (t_prods x)).
-
-Definition amap := list (nat * list frame).
-Fixpoint alookup (s : nat) (a : amap) : option (list frame) :=
-  match a with
-  | [] => None
-  | (n, stk) :: t => if Nat.eqb n s then Some stk else alookup s t
-  end.
-
-Section WithTable.
-  Variable tbl : list st.
-  Definition find_st (s : nat) := find (fun x => Nat.eqb (s_id x) s) tbl.
-
-  Fixpoint explore_alpha (fuel : nat) (todo : list (nat * list frame)) (a : amap) : amap :=
-    match fuel with
-    | 0 => a
-    | S f =>
-      match todo with
-      | [] => a
-      | (s, stk) :: t =>
-        match alookup s a with
-        | Some _ => explore_alpha f t a
-        | None =>
-          let next := match find_st s with
-                      | None => []
-                      | Some x => flat_map (fun y => match apply_test stk y with
-                                                     | Some stk' => [(t_tgt y, stk')]
-                                                     | None => []
-                                                     end) (s_tests x)
-                      end in
-          explore_alpha f (next ++ t) ((s, stk) :: a)
-        end
-      end
-    end.
-
-  (* every state of the table has a stack; every transition maps the stack of
-     its source to the stack of its target; the error tail stays put *)
-  Definition stack_consistent (s0 : nat) (a : amap) : bool :=
-    match alookup s0 a, apply_aev [] (AS RGherkinDocument) with
-    | Some stk0, Some stk0' => stack_beq stk0 stk0'
-    | _, _ => false
-    end
-    && forallb (fun x =>
-         match alookup (s_id x) a with
-         | None => false
-         | Some stk =>
-           Nat.eqb (s_err x) (s_id x)
-           && forallb (fun y =>
-                match apply_test stk y with
-                | None => false
-                | Some stk' =>
-                  match find_st (t_tgt y) with
-                  | Some _ => match alookup (t_tgt y) a with
-                              | Some stk'' => stack_beq stk' stk''
-                              | None => false
-                              end
-                  | None =>
-                    (* the end state: exactly the finished document is left *)
-                    match apply_aev stk' (AE RGherkinDocument) with
-                    | Some [] => true | _ => false end
-                  end
-                end) (s_tests x)
-         end) tbl.
-End WithTable.
+Require Import Kinds Regex Grammar RefSem Table NestingDefs.
 
 Definition alpha : amap :=
   Eval vm_compute in
